@@ -308,6 +308,16 @@ func init() {
 		return in.strFromCells(cells), nil
 	})
 
+	// log.Fatal terminates the server process: an interpreted "fatal exit" (the other log functions are no-ops)
+	reg(msPkg+"utils/log.Fatal", func(in *Interp, fn *ssa.Function, a []Value) (Value, *iPanic) {
+		msg := "log.Fatal"
+		if s, ok := a[0].(*StringV); ok {
+			msg = "log.Fatal: " + s.String()
+		}
+		ip := in.mkPanic("fatal-exit", msg)
+		return nil, ip
+	})
+
 	// ---------------- errors / fmt
 	reg("fmt.Errorf", func(in *Interp, fn *ssa.Function, a []Value) (Value, *iPanic) {
 		format := a[0].(*StringV).String()
